@@ -259,8 +259,10 @@ class SideAnalysis:
             params = f.all_param_names()
             if e.id in PARAM_SIDES and e.id in params:
                 base, n = PARAM_SIDES[e.id]
-                if base in params:
-                    return self.side_expr(f, ast.Name(id=base, ctx=ast.Load())) if not n else neg(self.side_expr(f, ast.Name(id=base, ctx=ast.Load())))
+                if base in params or len(self.defs(f).get(base, [])) == 1:
+                    s0 = self.side_expr(f, ast.Name(id=base, ctx=ast.Load()))
+                    if s0 is not None and not (canon(s0)[0] == base and base not in params):
+                        return s0 if not n else neg(s0)
             d = self.single_def(f, e.id)
             if d is not None and not isinstance(d, tuple):
                 return self.value_side(f, d, depth + 1)
